@@ -564,17 +564,19 @@ def run(ctx):
         check_results(ctx, res, _lim_batch(cc), 'corpus')
     res['scopes']['corpus'] = len(cc)
     # (b) exhaustive small scope
-    maxlen = 9 if ctx.deep else 6
+    full = ctx.tier == 'thorough'
+    # a fingerprint drift / broken proof in the quick tier explores deeper, within the quick budget
+    maxlen = (9 if full else 7) if ctx.deep else 6
     total, reached = exhaustive_limiter(ctx, res, maxlen)
     res['scopes']['exhaustive_limiter'] = {'max_ops': reached, 'initial_limits': [1, 2, 3],
                                            'streams': total, 'tail': f'{PROBES} probes + drain'}
     # (c) random longer streams (half of them with limits <= 0 allowed)
-    nrand = 20000 if ctx.deep and not res.failed else 1500
+    nrand = (20000 if full else 5000) if ctx.deep and not res.failed else 1500
     cases = [random_limiter_case(rng, k % 2 == 1) for k in range(nrand)]
     check_results(ctx, res, _pmap(ctx, _lim_batch, cases), 'random')
     res['scopes']['random_limiter'] = nrand
     # (d) session level
-    nsess = 4000 if ctx.deep and not res.failed else 300
+    nsess = (4000 if full else 1000) if ctx.deep and not res.failed else 300
     scases = [random_session_script(rng) for _ in range(nsess)]
     sres = _pmap(ctx, _sess_batch, scases, chunk=100)
     check_session_results(ctx, res, sres)
